@@ -1,5 +1,5 @@
 /- C19 / FI: the contracts of `reverse_purge_hash_map` / `frequent_items_sketch` over the heap calculus. -/
-import DSProofs.Lemmas.LifeFiG
+import DSProofs.Lemmas.LifeFiH
 namespace DS.Life.Fi
 open DS.Life
 
@@ -258,5 +258,49 @@ theorem merge_contract_partial {P : Params} (hP : P.OK) {n0 : Nat} {ids0 : List 
         Owns h' ids0 (owned s.map ++ owned o.map) (owned s'.map ++ owned o.map) n0) :=
   fun h hn ⟨hus, huo, hdis, hid⟩ =>
     merge_contract_partial_wf hP hbm h hn ⟨hus, huo, hdis, hid, idsLt_of_fresh hfresh hn hid⟩
+
+/-- `merge(const&)` / `merge(&&)`; general form with `IdsLt` in the precondition.  The by-move half needs the
+    iterator stride to be odd (`(… ) | 1` in the C++), otherwise the range-for could visit a slot twice and move from a
+    moved-from key -/
+theorem merge_contract_wf {P : Params} (hP : P.OK) {n0 : Nat} {ids0 : List Nat} {s o : Sketch} {byMove : Bool}
+    (hodd : byMove = true → ∀ lg, P.strideOf lg % 2 = 1) :
+    TripleS n0 (foot (owned s.map ++ owned o.map) n0)
+      (fun h => Usable P h s.map ∧ Usable P h o.map ∧ (∀ b, b ∈ owned s.map → b ∉ owned o.map) ∧ h.ids = ids0 ∧ IdsLt h)
+      (Sketch.merge P s o byMove)
+      (fun s' h' => Usable P h' s'.map ∧ Inv P h' o.map ∧ (byMove = false → Usable P h' o.map) ∧
+        Owns h' ids0 (owned s.map ++ owned o.map) (owned s'.map ++ owned o.map) n0) := by
+  cases byMove with
+  | false => exact merge_contract_partial_wf hP rfl
+  | true =>
+    intro h hn ⟨hus, huo, hdis, hid, hlt⟩
+    refine SafeF.mono (merge_move_spec P hP (hodd rfl) n0 _ foot_ge s o (fun b hb => foot_own hb) h h hn
+      ⟨rfl, hus, huo, hdis, hlt⟩) ?_
+    intro s' h' ⟨hus', hio', g⟩
+    exact ⟨hus', hio', fun e => (by cases e), hid ▸ merge_owns hn g huo.inv hdis⟩
+
+/-- `merge(const&)` / `merge(&&)` (extra hypotheses `hfresh` and, for the by-move half, an odd iterator stride) -/
+theorem merge_contract {P : Params} (hP : P.OK) {n0 : Nat} {ids0 : List Nat} {s o : Sketch} {byMove : Bool}
+    (hfresh : ∀ b, b ∈ ids0 → b < n0) (hodd : byMove = true → ∀ lg, P.strideOf lg % 2 = 1) :
+    TripleS n0 (foot (owned s.map ++ owned o.map) n0)
+      (fun h => Usable P h s.map ∧ Usable P h o.map ∧ (∀ b, b ∈ owned s.map → b ∉ owned o.map) ∧ h.ids = ids0)
+      (Sketch.merge P s o byMove)
+      (fun s' h' => Usable P h' s'.map ∧ Inv P h' o.map ∧ (byMove = false → Usable P h' o.map) ∧
+        Owns h' ids0 (owned s.map ++ owned o.map) (owned s'.map ++ owned o.map) n0) :=
+  fun h hn ⟨hus, huo, hdis, hid⟩ =>
+    merge_contract_wf hP hodd h hn ⟨hus, huo, hdis, hid, idsLt_of_fresh hfresh hn hid⟩
+
+/-- the stride of the driver (`… ||| 1`) is odd -/
+theorem or_one_odd (x : Nat) : (x ||| 1) % 2 = 1 := by
+  have h := Nat.testBit_or x 1 0
+  have h1 : Nat.testBit 1 0 = true := by decide
+  rw [h1, Bool.or_true] at h
+  rw [Nat.testBit_zero] at h
+  simp only [decide_eq_true_eq] at h
+  exact h
+
+/-- the concrete tunables of the C++ (any hash, any stride) satisfy the side conditions -/
+theorem params_ok (hashOf strideOf : Nat → Nat) :
+    Params.OK { loadNum := 3, loadDen := 4, driftLimit := 1024, maxSample := 1024, lgMinMap := 3, hashOf, strideOf } := by
+  refine ⟨?_, ?_, ?_⟩ <;> simp only <;> omega
 
 end DS.Life.Fi
